@@ -2791,7 +2791,7 @@ static Type *union_decl(Token **rest, Token *tok) {
     if (mem->is_bitfield)
       size = (mem->bit_width + 7) / 8;
 
-    if (!(mem->is_bitfield && !mem->name) && ty->align < mem->align)
+    if (!ty->is_packed && !(mem->is_bitfield && !mem->name) && ty->align < mem->align)
       ty->align = mem->align;
     if (ty->size < size)
       ty->size = size;
